@@ -68,6 +68,13 @@ class RevolveCheckpointSchedule(CheckpointSchedule):
             raise RuntimeError("Invalid forward steps number.")
 
         snapshots = set()
+        # Index of the last read of each stored checkpoint, so that the
+        # checkpoint can be released once it is no longer needed
+        last_read = {}
+        for j, op in enumerate(self._schedule):
+            if op.type in ("Read", "Read_memory", "Read_disk"):
+                _, (r_n0, _, r_storage) = _convert_action(op)
+                last_read[(r_storage, r_n0)] = j
         w_storage = None
         write_ics = False
         adj_deps = False
@@ -85,7 +92,7 @@ class RevolveCheckpointSchedule(CheckpointSchedule):
                         raise InvalidActionIndex
                     write_ics = True
                     adj_deps = False
-                    snapshots.add(w_n0)
+                    snapshots.add((w_storage, w_n0))
                 elif (w_cp_action == "Write_Forward"
                       or w_cp_action == "Write_Forward_memory"):
                     if w_n0 != n_1:
@@ -112,8 +119,9 @@ class RevolveCheckpointSchedule(CheckpointSchedule):
                   or cp_action == "Read_memory"
                   or cp_action == "Read_disk"):
                 self._n = n_0
-                if n_0 == self._max_n - self._r - 1:
-                    snapshots.remove(n_0)
+                if (n_0 == self._max_n - self._r - 1
+                        or last_read[(storage, n_0)] == i):
+                    snapshots.remove((storage, n_0))
                     yield Move(n_0, storage, StorageType.WORK)
                 else:
                     yield Copy(n_0, storage, StorageType.WORK)
